@@ -38,6 +38,8 @@ MAP = {  # commit subject (after "fix: ") -> (properties, what failed, which che
  "drop_invalid_rows drops every row failing a check that limits n_failure_cases": (["C11"], "Column(checks=Check.ge(lo, n_failure_cases=1)) under drop_invalid_rows dropped only the first failing row: the other invalid rows survived", "C11 frame_nfc/rd=all/N=2 drop/no_invalid_row_survives (the behaviour was first described by a mutation sub-agent's notes)"),
  "a stand-alone polars Column coerces only the column it selects": (["C08"], "polars Column(float, name='a', coerce=True).validate(frame) cast EVERY column of the frame (pandas coerces the named column only) and rejected a frame holding a text column", "C08 PL/COL/coerce=True/* column/other_columns_unchanged, verdict (the behaviour was first described by a mutation sub-agent's notes)"),
  "polars scalar failure cases are rendered as text like the row-level ones": (["C06", "C02"], "polars validate(lazy=True) leaked polars.exceptions.SchemaError when a check with a scalar False output (or a failed coercion of a stand-alone Column) was collected next to row-level failure cases", "C02/C06 PL/LZ/ab/.../scalar_check=True lazy/channel"),
+ "check_types validates a single value passed through *args": (["C17"], "check_types on f(*frames: DataFrame[M]) called with exactly one frame: the frame was not validated and the body received ((df,),)", "C17 types-varargs1 decorator/gate, body_receives_validated, other_arguments_unchanged (the behaviour was first described by a mutation sub-agent's notes)"),
+ "check_input with the default argument works on bound methods": (["C17"], "check_input(schema)(obj.method) (default designation, bound method object) raised IndexError on every call; designation by name or index worked", "C17 bound-none decorator/channel, outcome_as_direct_validation (the behaviour was first described by a mutation sub-agent's notes)"),
  "in_range strategy honours exclusive bounds for integer dtypes": (["C13"], "Check.in_range(0, 1, include_max=False) on an int column synthesised 1 (hypothesis ignores exclude_* for integers)", "C13 int/in_range draws_satisfy_checks (replayed with hypothesis.find)"),
 }
 
